@@ -4,6 +4,7 @@ contracts, the harness that builds the pre-states, and the properties its obliga
 import os, sys
 sys.path.insert(0, os.path.join(os.path.dirname(os.path.abspath(__file__)), 'tools'))
 import layout
+import vec
 
 AAP = 'cntgs::detail::AllocatorAwarePointer<.*>::'
 AAP_UNITS = [
@@ -81,4 +82,34 @@ def units(tier, seed=0):
             us.append(dict(id='lay.%s.%s' % (L.tag, name), tu='lay_' + L.tag, gen=cxx, template_text=txt, vars={}, entry=h,
                            enforce='@F{%s}' % layout.RX[key], replace=[], props=props, layer='elementTraits.hpp/parameterTraits.hpp',
                            kind='proof', config='layout: ' + spec))
+    for spec, flags in vec_catalogue(tier):
+        for f in flags:
+            txt, L = vec.c_unit(spec, f)
+            cxx = vec.cxx_tu(spec, f)
+            for name, h, key, props, repl, extra in vec.VEC_UNITS_COMMON + (vec.VEC_UNITS_VAR if L.is_varying() else vec.VEC_UNITS_FIXED):
+                u = dict(id='vec.%s.F%d.%s' % (L.tag, f, name), tu='vec_%s_F%d' % (L.tag, f), gen=cxx, template_text=txt, vars={}, entry=h,
+                         enforce='@F{%s}' % vec.RXV[key], replace=['@F{%s}' % vec.REPL[r] for r in repl], props=props, layer='vector.hpp/elementLocator.hpp',
+                         kind=extra.get('kind', 'proof'), config='vector: %s, allocator traits F=%d' % (spec, f))
+                if extra.get('unwind'): u['unwind'] = extra['unwind']
+                u['cdefs'] = ['VF_BLOCK_K=1']
+                if extra.get('cdefs_nvar'): u['cdefs'].append('VF_WINDOWS=%d' % min(4, 2 * L.nvar))
+                u['cdefs'] += extra.get('cdefs', [])
+                if key == 'transform':
+                    us.append(u)
+                    continue
+                for capk, unitsk in VEC_SHAPES[tier]:
+                    uu = dict(u); uu['id'] = u['id'] + '.cap%d' % capk
+                    uu['cdefs'] = u['cdefs'] + ['CAPK=%d' % capk, 'UNITSK=%d' % max(0, unitsk // L.sa)]
+                    if u['kind'] == 'proof':
+                        uu['kind'] = 'bounded(capacity=%d, block=%d bytes; size, contents and offsets symbolic)' % (capk, max(0, unitsk // L.sa) * L.sa)
+                    us.append(uu)
     return us
+
+
+VEC_SHAPES = {'quick': [(3, 64)], 'thorough': [(0, 0), (1, 32), (3, 64), (4, 96)]}
+
+
+def vec_catalogue(tier):
+    if tier == 'quick':
+        return [('c4 v4', [0]), ('f4', [0]), ('c8a8 v2 p4a8', [3])]
+    return [('c4 v4', [0, 5]), ('f4', [0, 10]), ('c8a8 v2 p4a8', [3]), ('p4 p8a8', [0]), ('f3 f5a4 p2a2', [6]), ('c4 v4 c4 v4', [0]), ('c2 v3 c1 v5a4 p1', [0]), ('f4a16 c4 v4a8', [9])]
